@@ -89,6 +89,26 @@ func (fr *Frame) intrinsic(st *State, site ssa.Instruction, full string, fn *ssa
 		n := map[string]int{"64": 8, "32": 4, "16": 2}[full[len(full)-2:]]
 		fr.binaryPut(st, args[1], T(2), n, strings.Contains(full, "bigEndian"))
 		return nil, true
+	case "sync/atomic.AddUint64", "sync/atomic.AddUint32", "sync/atomic.AddInt64", "sync/atomic.AddInt32":
+		// executed as a plain read-modify-write (interleavings are not modelled: see option go-as-call / execute-as-range)
+		if p, ok := args[0].(*PtrV); ok && p.Obj != nil {
+			cur, okc := fr.load(st, p).(*Term)
+			if okc {
+				w, signed := 64, strings.Contains(full, "Int")
+				if strings.HasSuffix(full, "32") {
+					w = 32
+				}
+				sum := F.Add(cur, T(1))
+				if signed && !strings.Contains(full, "Uint") {
+					sum = F.WrapS(w, sum)
+				} else {
+					sum = F.WrapU(w, sum)
+				}
+				fr.store(st, p, sum, nil)
+				return sum, true
+			}
+		}
+		unsup("atomic add through %T", args[0])
 	case "(*sync.Once).Do":
 		fr.v.assume("sync.Once-guarded lazy initialisation is treated as already done: the initialised tables are fixed constants")
 		return nil, true
